@@ -36,12 +36,17 @@ BOUNDS = {
              "zoom: every mask (>= 1 unmasked pixel) of shapes with <= 9 pixels (sides <= 6) plus 2x5, 5x2, buffers 0,1,2; "
              "zoom histories (zoom + read every zoom quantity, flip ONE pixel of the same Mask2D object in place, zoom again): every mask of shapes with <= 6 pixels "
              "x every pixel, buffers 0,1",
-    "thorough": "same obligations; input shapes 1..6 x 1..6, targets 1..8 x 1..8 (2304 pairs); extraction windows of shapes <= 5x5; every mask of shapes with <= 8 pixels "
-                "x targets 1..6 x 1..6 (mask/array resize, pad/trim); every mask of shapes with <= 9 pixels plus 2x5, 5x2 (Imaging.apply_mask, odd PSF shapes up to (5,5)); "
-                "every mask of shapes with <= 9 pixels plus 3x4, 4x3, 2x5, 5x2, 2x6, 6x2 (zoom, buffers 0..3); zoom histories on every mask of shapes with <= 8 pixels x every single-pixel in-place edit",
+    "thorough": "same obligations and symbolic inputs as quick; ENUMERATED: input shapes 1..7 x 1..7, target shapes 1..10 x 1..10 (4900 pairs) for resized_array_2d_from and "
+                "Array2D.resized_from on unmasked input incl. grow-then-shrink; extraction windows with margin 3 on shapes <= 6x6; Mask2D.trimmed_array_from on frames 1..7 x 1..7, "
+                "every image_shape <= frame; pad/trim on unmasked inputs 1..7 x 1..7 with every odd kernel shape with axes in {1,3,5,7} (16 shapes); "
+                "Mask2D.resized_from / masked Array2D.resized_from and pad/trim (odd kernels up to (5,5)): every mask (forked) of shapes with <= 8 pixels (sides <= 7) plus 3x3, 2x5, 5x2 "
+                "x targets 1..6 x 1..6; Imaging.apply_mask: every mask (>= 1 unmasked pixel) of shapes with <= 9 pixels (sides <= 5) plus 2x5, 5x2, 3x4, 4x3, the 9 odd PSF shapes up to (5,5); "
+                "zoom: every mask of shapes with <= 9 pixels (sides <= 6) plus 2x5, 5x2, 3x4, 4x3, 2x6, 6x2 with buffers 0..3, and every mask of 3x5, 5x3 (32767 each) with buffers 0..2; "
+                "zoom histories: one in-place single-pixel edit between two zooms on every mask of shapes with <= 9 pixels (sides <= 7) plus 2x5, 5x2 x every pixel, and three-step "
+                "histories (zoom, edit, zoom, edit, zoom: every ordered pair of pixels) on every mask of shapes with <= 6 pixels; buffers 0,1",
 }
 OUTSIDE = [
-    "shapes beyond the enumerated bounds; kernels with an axis longer than 5",
+    "shapes beyond the enumerated bounds; kernels with an axis longer than 5 (quick; thorough: longer than 7 on unmasked inputs, 5 otherwise)",
     "even kernel axes (padding by k-1 then changes the parity; the property quantifies over odd kernels only)",
     "which of the two admissible centres is used when the parity of an axis changes (docstring and code disagree; any offset o with |o-(Hin-Hout)/2| <= 1/2 is accepted, "
     "but array values and mask must use the same one)",
@@ -55,7 +60,7 @@ ASSUMPTIONS = [
     "index-labelled array, restricted to the admissible candidates {floor(d/2), ceil(d/2)}, d = size_in - size_out; the solver then decides "
     "'out == window(in, witness)' for all values",
     "masks of class-level cases are explored by forking (one path per mask)",
-    "histories are bounded to one in-place single-pixel edit (Mask2D.__setitem__) between two zoom reads",
+    "histories are bounded to one (thorough: also two) in-place single-pixel edits (Mask2D.__setitem__), each between two zoom reads",
 ]
 EXPLORER_OPTS = {"timeout_ms": 20000, "max_paths": 200000, "max_decisions": 50000}
 BUDGET_S = {"quick": 900, "thorough": 3000}
@@ -597,9 +602,18 @@ ZOOM_READS = ("zoom_region", "zoom_shape_native", "zoom_centre", "zoom_offset_pi
               "zoom_mask_unmasked", "mask_centre", "shape_native_masked_pixels")
 
 
-def body_zoom_history(inp, H, W, buffers):
+def _zoom_reads(m, arr, buffers):
+    for name in ZOOM_READS:
+        hx.attempt(lambda: getattr(m, name))
+    for buf in buffers:
+        hx.attempt(lambda: arr.zoomed_around_mask(buffer=buf))
+        hx.attempt(lambda: arr.extent_of_zoomed_array(buffer=buf))
+
+
+def body_zoom_history(inp, H, W, buffers, steps=1):
     """histories: zoom around a mask object (every public zoom quantity is read), edit ONE pixel of the same object in place
-    (Mask2D.__setitem__, every pixel, the flipped value), then zoom again: the second zoom must describe the CURRENT mask"""
+    (Mask2D.__setitem__, every pixel, the flipped value), then zoom again: the second zoom must describe the CURRENT mask.
+    steps=2: a second single-pixel edit (every pixel again) and a third zoom; the obligations are stated on the last zoom"""
     import autoarray as aa
     mask = np.array(inp["mask"], dtype=bool).reshape(H, W)
     v = np.asarray(inp["v"]).reshape(H, W)
@@ -610,25 +624,34 @@ def body_zoom_history(inp, H, W, buffers):
             mask2[y, x] = not mask[y, x]
             if mask2.all():
                 continue
-            m = aa.Mask2D(mask=mask.copy(), pixel_scales=(1.0, 2.0), origin=(0.5, -0.25))
-            first = aa.Array2D(values=v, mask=m)
-            for name in ZOOM_READS:
-                hx.attempt(lambda: getattr(m, name))
-            for buf in buffers:
-                hx.attempt(lambda: first.zoomed_around_mask(buffer=buf))
-                hx.attempt(lambda: first.extent_of_zoomed_array(buffer=buf))
-            m[y, x] = bool(mask2[y, x])
-            pre = "zoom; mask[%d,%d]=%s; zoom:" % (y, x, bool(mask2[y, x]))
-            A[pre + "mask_object_holds_the_edit"] = np.array(m.array, dtype=bool)
-            E[pre + "mask_object_holds_the_edit"] = mask2
-            _zoom_obligations(A, E, pre, m, mask2, v, H, W, buffers)
+            seconds = [None] if steps == 1 else [(y2, x2) for y2 in range(H) for x2 in range(W)]
+            for sec in seconds:
+                m = aa.Mask2D(mask=mask.copy(), pixel_scales=(1.0, 2.0), origin=(0.5, -0.25))
+                _zoom_reads(m, aa.Array2D(values=v, mask=m), buffers)
+                m[y, x] = bool(mask2[y, x])
+                pre = "zoom; mask[%d,%d]=%s; zoom:" % (y, x, bool(mask2[y, x]))
+                cur = mask2
+                if sec is not None:
+                    cur = mask2.copy()
+                    cur[sec] = not mask2[sec]
+                    if cur.all():
+                        continue
+                    _zoom_reads(m, aa.Array2D(values=v, mask=m), buffers)
+                    m[sec[0], sec[1]] = bool(cur[sec])
+                    pre = "zoom; mask[%d,%d]=%s; zoom; mask[%d,%d]=%s; zoom:" % (y, x, bool(mask2[y, x]), sec[0], sec[1], bool(cur[sec]))
+                A[pre + "mask_object_holds_the_edit"] = np.array(m.array, dtype=bool)
+                E[pre + "mask_object_holds_the_edit"] = cur
+                _zoom_obligations(A, E, pre, m, cur, v, H, W, buffers)
     return A, E
 
 
-def case_zoom_history(ctx, H, W, buffers):
+def case_zoom_history(ctx, H, W, buffers, steps=1):
     mask = _fork_mask(ctx, H, W)
     inputs = {"mask": mask, "v": V.real_array("v", (H, W))}
-    hx.run_body(ctx, body_zoom_history, inputs, {"H": H, "W": W, "buffers": buffers}, validate_every=32)
+    kw = {"H": H, "W": W, "buffers": buffers}
+    if steps != 1:
+        kw["steps"] = steps
+    hx.run_body(ctx, body_zoom_history, inputs, kw, validate_every=32)
 
 
 def case_zoom(ctx, H, W, buffers):
@@ -649,31 +672,38 @@ def _shapes(cap, side):
     return [(H, W) for H in range(1, side + 1) for W in range(1, side + 1) if H * W <= cap]
 
 
+ODD_KERNELS_7 = ODD_KERNELS + [(1, 7), (7, 1), (3, 7), (7, 3), (5, 7), (7, 5), (7, 7)]
+
+
 def cases(tier):
     quick = tier == "quick"
-    n_in, n_out = (5, 6) if quick else (6, 8)
+    n_in, n_out = (5, 6) if quick else (7, 10)
+    uk = ODD_KERNELS if quick else ODD_KERNELS_7
     targets = [[a, b] for a in range(1, n_out + 1) for b in range(1, n_out + 1)]
     out = []
     for H in range(1, n_in + 1):
         for W in range(1, n_in + 1):
             out.append(("case_kernel", {"H": H, "W": W, "targets": targets}))
             out.append(("case_array_resize", {"H": H, "W": W, "targets": targets, "store_native": bool((H + W) % 2)}))
-            out.append(("case_pad_trim", {"H": H, "W": W, "kernels": ODD_KERNELS, "all_masks": False}))
+            out.append(("case_pad_trim", {"H": H, "W": W, "kernels": uk, "all_masks": False}))
             out.append(("case_mask_trim", {"Hp": H, "Wp": W}))
-    ext = 4 if quick else 5
+    ext, margin = (4, 2) if quick else (6, 3)
     for H in range(1, ext + 1):
         for W in range(1, ext + 1):
-            out.append(("case_extract", {"H": H, "W": W, "margin": 2}))
+            out.append(("case_extract", {"H": H, "W": W, "margin": margin}))
+
+    def split_for(n):
+        return 0 if n < 6 else (2 if n <= 6 else (4 if n <= 8 else (5 if n <= 12 else 7)))
+
     # every mask (forked) of the small shapes
-    cap_m = 6 if quick else 8
     nt = 5 if quick else 6
     mt = [[a, b] for a in range(1, nt + 1) for b in range(1, nt + 1)]
-    for (H, W) in _shapes(cap_m, n_in):
-        sp = 0 if H * W < 6 else (2 if H * W <= 6 else 4)
-        out.append(("case_masked_resize", {"H": H, "W": W, "targets": mt}, {"split": sp}))
-        out.append(("case_pad_trim", {"H": H, "W": W, "kernels": ODD_KERNELS, "all_masks": True}, {"split": sp}))
+    mshapes = _shapes(6, 5) if quick else (_shapes(8, 7) + [(3, 3), (2, 5), (5, 2)])
+    for (H, W) in mshapes:
+        out.append(("case_masked_resize", {"H": H, "W": W, "targets": mt}, {"split": split_for(H * W)}))
+        out.append(("case_pad_trim", {"H": H, "W": W, "kernels": ODD_KERNELS, "all_masks": True}, {"split": split_for(H * W)}))
     ik = [(1, 1), (1, 3), (3, 1), (3, 3), (3, 5), (5, 3)] + ([] if quick else [(1, 5), (5, 1), (5, 5)])
-    ishapes = (_shapes(8, 5) + [(3, 3)]) if quick else (_shapes(9, 5) + [(2, 5), (5, 2)])
+    ishapes = (_shapes(8, 5) + [(3, 3)]) if quick else (_shapes(9, 5) + [(2, 5), (5, 2), (3, 4), (4, 3)])
     for (H, W) in ishapes:
         n = H * W
         out.append(("case_imaging", {"H": H, "W": W, "kernels": ik}, {"split": 0 if n < 6 else (3 if n <= 8 else 5)}))
@@ -682,9 +712,14 @@ def cases(tier):
         n = H * W
         out.append(("case_zoom", {"H": H, "W": W, "buffers": [0, 1, 2] if quick else [0, 1, 2, 3]},
                     {"split": 0 if n < 8 else (3 if n <= 10 else 5)}))
-    for (H, W) in _shapes(6 if quick else 8, 6):
+    for (H, W) in _shapes(6, 6) if quick else (_shapes(9, 7) + [(2, 5), (5, 2)]):
         n = H * W
-        out.append(("case_zoom_history", {"H": H, "W": W, "buffers": [0, 1]}, {"split": 0 if n < 6 else (2 if n <= 6 else 4)}))
+        out.append(("case_zoom_history", {"H": H, "W": W, "buffers": [0, 1]}, {"split": 0 if n < 6 else (2 if n <= 6 else (4 if n <= 8 else 5))}))
+    if not quick:
+        for (H, W) in [(3, 5), (5, 3)]:
+            out.append(("case_zoom", {"H": H, "W": W, "buffers": [0, 1, 2]}, {"split": 7}))
+        for (H, W) in _shapes(6, 6):
+            out.append(("case_zoom_history", {"H": H, "W": W, "buffers": [0, 1], "steps": 2}, {"split": 0 if H * W < 5 else 3}))
 
     def weight(c):
         kw = c[1]
